@@ -13,7 +13,7 @@ from concurrent.futures import ThreadPoolExecutor
 
 VERIF = os.path.dirname(os.path.dirname(os.path.abspath(__file__)))
 REPO = "/repo"
-LAB = "/tmp/reflab"
+LAB = os.environ.get("REFLAB", "/tmp/reflab")
 ENV = dict(os.environ, GOFLAGS="-mod=mod", GOPROXY="off", GOSUMDB="off", GOTOOLCHAIN="local")
 PROPS = ["C%02d" % i for i in range(1, 18)]
 
